@@ -120,6 +120,14 @@ def gen_specs():
         if p["name"] == "dr":
             p["sigma"] = 0.1
     yield "combined_sparse", s
+    # data entered at closely spaced years (quarterly ... daily columns): each column must come back in its own place
+    for lab, sp in (("quarter", 0.25), ("month", 1 / 12), ("week", 1 / 52), ("day", 1 / 365)):
+        yrs = [2000.0 + k * sp for k in range(4)] + [2001.0, 2002.0]
+        s = simspace.combined_spec(0.25, v={"t": yrs, "v": [0.1, 0.3, 0.2, 0.25, 0.15, 0.35]}, dur=1.0, prog=True)
+        s["years"] = yrs
+        s["progs"]["years"] = yrs[:4] + [2001.0]
+        s["progs"]["progs"][0]["spend"] = {"t": yrs[:4] + [2001.0], "v": [100.0, 200.0, 300.0, 400.0, 500.0]}
+        yield "spacing_" + lab, s
     yield "agg", c06.model("agg", 0.25, "three", 0.5, 1.5, "both", True, None)
     yield "state", c06.model("state", 0.5, "one", 1.0, 1.0, "min", True, None)
     for t in simspace.timed("quick"):
@@ -136,7 +144,7 @@ def cases(tier):
     depth = 2 if tier == "quick" else 3
     for d in range(1, depth + 1):
         for h in itertools.product(range(len(ops)), repeat=d):
-            if d == 3 and not ({"remove_pop", "remove_program", "reconcile05", "sample0", "remove_par"} & {ops[i] for i in h[:2]}):
+            if d == 3 and not ({"remove_pop", "remove_program", "reconcile05", "reconcile_b", "sample0", "remove_par"} & {ops[i] for i in h[:2]}):
                 continue
             yield dict(kind="history", hist=[ops[i] for i in h])
 
@@ -266,7 +274,7 @@ def run_rt_library(case):
 
 # ------------------------------------------------------------------ (b) edit histories
 
-OPS = ["copy", "add_pop", "remove_pop", "add_program", "remove_program", "add_par", "remove_par", "sample0", "reconcile_uc", "reconcile05", "loadcal_match", "loadcal_extra", "loadcal_missing"]
+OPS = ["copy", "add_pop", "remove_pop", "add_program", "remove_program", "add_par", "remove_par", "sample0", "reconcile_uc", "reconcile05", "reconcile_b", "reconcile_bo", "reconcile_ub", "loadcal_match", "loadcal_extra", "loadcal_missing"]
 
 
 class State:
@@ -357,14 +365,17 @@ def apply_op(st, op):
             c.sigma = 0.0
         st.progset = st.progset.sample()
         st.parset = st.parset.sample()
-    elif op in ("reconcile_uc", "reconcile05"):
-        # reconcile_uc: only unit costs may move (baseline / outcome bounds 0); reconcile05: unit costs, baselines and outcomes within 5%
-        b = 0.0 if op == "reconcile_uc" else 0.05
+    elif op.startswith("reconcile"):
+        # every non-empty subset of the three groups of quantities reconciliation may move (unit costs, baselines, outcomes), each within 5%;
+        # reconcile_uc = unit costs only, reconcile05 = all three.  Outcomes only enter the search vector together with the baselines
+        # (reconciliation._prepare_asd_inputs), so "o" alone has nothing to adjust (the third-party optimiser refuses an empty vector) and
+        # "uo" is the same as "u": those two subsets are not in the alphabet
+        groups = {"reconcile_uc": "u", "reconcile05": "ubo"}.get(op) or op.split("_")[1]
         if not st.progset.covouts:
             return vs
         P = st.project()
         with scripted([1, 3, 0, 2, 5, 4, 1]):
-            new, _, _ = at.reconcile(P, st.parset, st.progset, 2001.0, max_time=1e9, unit_cost_bounds=0.05, baseline_bounds=b, outcome_bounds=b)
+            new, _, _ = at.reconcile(P, st.parset, st.progset, 2001.0, max_time=1e9, unit_cost_bounds=0.05 if "u" in groups else 0.0, baseline_bounds=0.05 if "b" in groups else 0.0, outcome_bounds=0.05 if "o" in groups else 0.0)
         st.progset = new
     elif op.startswith("loadcal"):
         before = {k: (dict(p.y_factor), p.meta_y_factor) for k, p in st.parset.pars.items()}
